@@ -141,6 +141,8 @@ def obs_constructor(shape_in, shape_val, int_inputs=False, sharding=False, eq_ke
         k = z3.Int("k")
         pre = [n >= 1, b >= 1, b <= n, k >= 0, k < n]
         goals = [("indices", zint(rec.fields["indices"].elem(k)) == k), ("n", zint(rec.fields["n"]) == n),
+                 ("indices_extent", z3.And(z3.BoolVal(len(rec.fields["indices"].shape) == 1), zint(rec.fields["indices"].shape[0]) == n)),
+                 ("table_extents", z3.And(zint(rec.fields["observed_pinn_in"].shape[0]) == n, zint(rec.fields["observed_values"].shape[0]) == n)),
                  ("input_2d", z3.BoolVal(len(rec.fields["observed_pinn_in"].shape) == 2)),
                  ("value_2d", z3.BoolVal(len(rec.fields["observed_values"].shape) == 2)),
                  ("param_2d", z3.BoolVal(all(len(v.shape) == 2 for v in rec.fields["observed_eq_params"].values()))),
@@ -304,6 +306,9 @@ def native_alignment():
         kw = dict(sharding_device=shard) if shard is not None else {}
         g = DataGeneratorObservations(jax.random.PRNGKey(2), bb, jnp.arange(nn, dtype=jnp.int32)[:, None], jnp.asarray(vals)[:, None],
                                       {"nu": 100.0 + jnp.arange(nn, dtype=float), "D": 200.0 + jnp.arange(nn, dtype=float)}, **kw)
+        if sorted(np.asarray(g.indices).tolist()) != list(range(nn)):
+            return [f"{nn} observations, batch size {bb}{', sharding_device given' if shard is not None else ''}: the index store built by the constructor is "
+                    f"{np.asarray(g.indices).tolist()}, not a permutation of 0..{nn - 1}"]
         for call in range(4):
             g, bt = g.get_batch()
             i = np.asarray(bt["pinn_in"])[:, 0].astype(int)
